@@ -212,6 +212,22 @@ def enumerate_cases(tier, shard, nshards, seed):
 
                     yield {'src': src, 'steps': [{**base, 'op': op, 'qmode': qmode}, {**base, 'op': 'replace', 'qmode': qmode}], 'grid': True}
 
+    # single edits (replace / remove / cut / line comments / primitive puts) and two-step histories on the trivia-dense programs with every query
+    # made before each edit: every node's caches are populated, so an edit that forgets to flush an ancestor or a sibling shows in the comparison
+    from .. import gen
+
+    for case in em.single_edit_grid(gen.TRIVIA_PROGRAMS + gen.FSTRING_PROGRAMS, tier, shard, nshards, seed, n_expr=3, line_comments=True, cut=True, thin=3 if tier == 'quick' else 1):
+        for st_ in case['steps']:
+            st_.update(qmode=4, qsel=0)
+
+        yield case
+
+    for case in em.ancestor_two_step_grid(gen.TRIVIA_PROGRAMS, tier, shard, nshards, seed, thin=3 if tier == 'quick' else 1):
+        for st_ in case['steps']:
+            st_.update(qmode=4, qsel=0)
+
+        yield case
+
 
 def execute(case, ctx):
     if (why := c01.excluded(case['src'])) and not case.get('no_exclude'):
